@@ -297,6 +297,10 @@ def oracle(case, obs, check=("sem", "md", "edges", "refs", "early", "emitwait", 
                                  "below it raised; the downstream branches not yet served lost the element and the emitter sees an error nobody caused"
                                  % (k, op, e[1], nodes[e[1]]["kind"], e[2])))
                 return problems
+        if err and "AssertionError" in err and "sem" in check:
+            problems.append(("semantics:user-function-arguments", "op %d %r: %s - a node did not call its user function as func(x, *args, **kwargs) with the "
+                             "extra arguments it was given" % (k, op, err)))
+            return problems
         if err and "RecursionError" in err and "sem" in check:
             problems.append(("semantics:non-terminating", "op %d %r: the emission never terminated (RecursionError): an element keeps circulating "
                              "(a de-duplicating node on a feedback edge let a repeated element through)" % (k, op)))
